@@ -118,8 +118,8 @@ macro_rules! inst_n {
         )*
     };
 }
-inst_n!(body_table, 45: c04_table_1 = 1, c04_table_2 = 2, c04_table_3 = 3, c04_table_4 = 4, c04_table_5 = 5, c04_table_6 = 6);
-inst_n!(body_jump, 45: c04_jump_1 = 1, c04_jump_2 = 2, c04_jump_3 = 3, c04_jump_4 = 4);
+inst_n!(body_table, 45: c04_table_1 = 1, c04_table_2 = 2, c04_table_3 = 3, c04_table_4 = 4, c04_table_5 = 5, c04_table_6 = 6, c04_table_7 = 7, c04_table_8 = 8);
+inst_n!(body_jump, 45: c04_jump_1 = 1, c04_jump_2 = 2, c04_jump_3 = 3, c04_jump_4 = 4, c04_jump_5 = 5, c04_jump_6 = 6);
 
 #[kani::proof]
 #[kani::unwind(45)]
